@@ -89,6 +89,33 @@ def check_case(case, ctx):
         if cnt > 0 and pen != 0:
             nz += 1
             ctx.count(f"cell:{pl}{s}")
+    # history on shared objects: the same factory scores a candidate, the Dataset is shrunk in place, the same factory
+    # scores a candidate over the remaining elements
+    uni = ref.universe(ds)
+    if len(uni) >= 3:
+        factory = ck.KemenyComputingFactory(scheme)
+        call(factory.get_kemeny_score, ranking, dataset)
+        victim = uni[len(uni) // 2]
+        ds2 = [[[e for e in b if e != victim] for b in r] for r in ds]
+        ds2 = [[b for b in r if b] for r in ds2]
+        ds2 = [r for r in ds2 if r]
+        if ds2 and libx.normalise_raw(ds2) == ds2 and call(dataset.remove_elements, {ck.Element(victim)})[0] == "ok":
+            cand2 = [[e for e in b if e != victim] for b in cand]
+            cand2 = [b for b in cand2 if b]
+            now = libx.raw_dataset(dataset)
+            if cand2 and ref.is_complete_towards(cand2, now):
+                ctx.count("scored_again_after_in_place_removal")
+                want2 = ref.kemeny(cand2, now, sch)
+                st5, v5 = call(factory.get_kemeny_score, libx.mk_ranking(cand2), dataset)
+                if st5 == "exc":
+                    ctx.violation("C01/complete-candidate-refused:after-in-place-removal", "after remove_elements on the "
+                                  f"Dataset, the factory that had already scored it refused a candidate that contains every "
+                                  f"remaining element: {exc_desc(v5)}", {**case, "removed": victim, "cand2": cand2},
+                                  observed=type(v5).__name__, expected=want2)
+                elif not common.close(v5, want2, exact):
+                    ctx.violation("C01/score-differs-from-definition:after-in-place-removal", "score after an in-place "
+                                  "removal differs from the definition", {**case, "removed": victim, "cand2": cand2},
+                                  observed=v5, expected=want2)
     if not exact:
         ctx.count("decimal_cases")
     nb = sum(len(b) for b in cand)
@@ -114,6 +141,9 @@ def reach(counters, tier, info):
     counters["cells_min"] = mins
     v = counters.get("contract:get_kemeny_score", 0)
     out.append({"name": "postcondition evaluations on get_kemeny_score", "observed": v, "required": 100, "ok": v >= 100})
+    v = counters.get("scored_again_after_in_place_removal", 0)
+    out.append({"name": "candidates scored by the same factory after an in-place removal", "observed": v, "required": 300,
+                "ok": v >= 300 or tier != "quick" and v >= 300})
     v = counters.get("refusals_observed", 0)
     out.append({"name": "refusals of incomplete candidates observed", "observed": v, "required": 20, "ok": v >= 20})
     return out
